@@ -8,8 +8,8 @@
    concurrent runs under the race detector, see checks/C05.py). *)
 From Coq Require Import List NArith Bool String Permutation.
 From Coq.Strings Require Import Byte.
-From GM Require Import Topic.MatchSpec Topic.Levels Topic.Trie Topic.TrieProofs Topic.TreeSpec
-  Topic.TreeSpecProofs Topic.TrieRefineProofs Topic.TrieCanonProofs Topic.TrieTopProofs.
+From GM Require Import Base.Lin Topic.MatchSpec Topic.Levels Topic.Trie Topic.TrieProofs Topic.TreeSpec
+  Topic.TreeSpecProofs Topic.TrieRefineProofs Topic.TrieCanonProofs Topic.TrieTopProofs Topic.TreeLin Topic.TreeLinProofs.
 Import ListNotations.
 Open Scope N_scope.
 
@@ -73,6 +73,24 @@ Theorem C05_checker_is_relation : forall m q a, answer_okb m q a = true <-> answ
 Proof. exact answer_okb_iff. Qed.
 Print Assumptions C05_checker_is_relation.
 
+(* concurrent histories on overlapping keys.  A history is a list of completed operations with the
+   observed result and call / return stamps from one clock.  It is linearizable when some
+   permutation of it (1) never puts an operation before one that had returned before it was called
+   (rt_ok) and (2) is a legal sequential run of the map specification from the empty map producing
+   the observed results up to order (legal).  The extracted checker the model runner applies to the
+   recorded histories answers `true` only for linearizable histories ... *)
+Theorem C05_lin_check_sound : forall (h : list tevent) fuel, tree_lin_check h fuel = true ->
+  exists l, Permutation l h /\ rt_ok lop (lop * list N) l /\ legal tmap lop (lop * list N) lstep lagree [] l.
+Proof. exact tree_lin_sound. Qed.
+Print Assumptions C05_lin_check_sound.
+
+(* ... and its verdict `No` (search finished within the node budget) refutes linearizability:
+   a `propfail lin` line of the check is a history that no atomic implementation can produce *)
+Theorem C05_lin_verdict_no : forall (h : list tevent) fuel, tree_lin_verdict h fuel = No ->
+  ~ exists l, Permutation l h /\ rt_ok lop (lop * list N) l /\ legal tmap lop (lop * list N) lstep lagree [] l.
+Proof. exact tree_lin_refutes. Qed.
+Print Assumptions C05_lin_verdict_no.
+
 (* non-vacuity *)
 Definition b (s : string) : list byte := list_byte_of_string s.
 Definition ex_ops : list op :=
@@ -94,3 +112,17 @@ Proof.
   split; [apply wf_run|]. split; [apply pruned_run|]. split; [apply mwf_run|].
   split; [simpl; discriminate | simpl; discriminate].
 Qed.
+
+(* Set(k,1) returns; then Set(k,2) runs concurrently with a Get(k).  An atomic Set never leaves the
+   topic empty: Get = [] is rejected (this is what a Set implemented as Empty-then-Add shows),
+   Get = [1] and Get = [2] are accepted, and so is a Search answer in another order. *)
+Definition ex_hist (observed : list N) : list tevent :=
+  [mk_event (LUpd (OSet (b "k") 1)) [] 1 2; mk_event (LUpd (OSet (b "k") 2)) [] 3 6; mk_event (LGet (b "k")) observed 4 5].
+Example C05_lin_examples :
+  tree_lin_verdict (ex_hist []) 1000 = No /\
+  tree_lin_check (ex_hist [1]) 1000 = true /\ tree_lin_check (ex_hist [2]) 1000 = true /\
+  tree_lin_verdict (ex_hist [1; 2]) 1000 = No /\
+  tree_lin_check [mk_event (LUpd (OAdd (b "a/b") 1)) [] 1 4; mk_event (LUpd (OAdd (b "a/+") 2)) [] 2 3;
+                  mk_event (LMatch (b "a/b")) [2; 1] 5 6; mk_event (LSearch (b "a/#")) [] 2 3] 1000 = true /\
+  tree_lin_verdict (ex_hist [1]) 1 = OutOfFuel.
+Proof. vm_compute. repeat split; reflexivity. Qed.
